@@ -150,6 +150,22 @@ func replayVfp(line []byte, a *Acc) {
 	if after := tagged.CanonGo(mv); after != before {
 		a.Mis("vfp:receiver-modified", "ValuesForPath modified its receiver: "+short(before)+" -> "+short(after), l)
 	}
+	// the same document with equal sub-documents held as ONE object: a path denotes the same values
+	if shared, ok := tagged.InternGo(map[string]interface{}(mv)).(map[string]interface{}); ok && tagged.SharedContainer(shared) != "" {
+		sv := mxj.Map(shared)
+		for _, c := range l.Cs {
+			p := subst1(c.P)
+			var g1, g2 []interface{}
+			if pn := guard(func() { g1, _ = mv.ValuesForPath(p); g2, _ = sv.ValuesForPath(p) }); pn != "" {
+				continue
+			}
+			c1, c2 := tagged.CanonList(g1), tagged.CanonList(g2)
+			if !tagged.SameBag(c1, c2) {
+				a.Mis("vfp:shared-subdocuments", fmt.Sprintf("ValuesForPath(%q) on %s gives %s; with equal sub-documents held as one object it gives %s", p, short(before), short(strings.Join(c1, " ")), short(strings.Join(c2, " "))), vfpLine{F: "vfp", M: l.M, Cs: []vfpCase{c}})
+				break
+			}
+		}
+	}
 	a.Count(len(l.Cs), nontriv)
 	if nontriv > 8 {
 		for _, c := range l.Cs {
